@@ -239,7 +239,7 @@ func main() {
 		return
 	}
 	rep := report.New("C20", tier, "exploration")
-	rep.Rule = "E1 lattice: abstract CRS records (Mercator_1SP, Lambert_Conformal_Conic_2SP, Albers, Equidistant_Conic in both parameter spellings, Transverse_Mercator, plain GEOGCS) x parameter sets (northern / southern cones, 1SP) x 4 (6) spheroids by (a, 1/f) x TOWGS84 {none, 3 terms, 7 terms, 7 terms with zero translations, 7 terms with zero rotations} x WKT clause order {UNIT last, UNIT first} / PROJ.4 parameter order {as usual, reversed}; latitudes of origin incl. 0 and +-90 x linear unit {metre, foot, US survey foot}, each rendered by two independent renderers as PROJ.4 and as OGC WKT 1 with neutral names; transformers from the own geographic base (and from WGS84 long/lat when a TOWGS84 is stated) must agree within 1 micrometre at 16-20 positions; registered names and aliases against their definitions; every ordered pair of a pool of 44 references differing in one field each (incl. WKT texts sharing their names): parsing twice gives Equal, NewTransform is nil exactly for Equal references, and a nil transformer is returned only for references that transform identically; a .prj read through (*shp.Decoder).SR equals Parse of its text. Non-trivial = records with a non-metre unit, a TOWGS84 clause or the alternative parameter spelling."
+	rep.Rule = "E1 lattice: abstract CRS records (Mercator_1SP, Lambert_Conformal_Conic_2SP, Albers, Equidistant_Conic in both parameter spellings, Transverse_Mercator, plain GEOGCS) x parameter sets (northern / southern cones, 1SP) x 4 (6) spheroids by (a, 1/f) x TOWGS84 {none, 3 terms, 7 terms, 7 terms with zero translations, 7 terms with zero rotations} x WKT clause order {UNIT last, UNIT first} / PROJ.4 parameter order {as usual, reversed}; latitudes of origin incl. 0 and +-90 x linear unit {metre, foot, US survey foot}, each rendered by two independent renderers as PROJ.4 and as OGC WKT 1 with neutral names; transformers from the own geographic base (and from WGS84 long/lat when a TOWGS84 is stated) must agree within 1 micrometre at 16-20 positions; registered names and aliases against their definitions; every ordered pair of a pool of 48 references differing in one field each (some by a few 1e-11 only) (incl. WKT texts sharing their names): parsing twice gives Equal, NewTransform is nil exactly for Equal references, and a nil transformer is returned only for references that transform identically; a .prj read through (*shp.Decoder).SR equals Parse of its text. Non-trivial = records with a non-metre unit, a TOWGS84 clause or the alternative parameter spelling."
 	var n, nontrivial int64
 	spheroids := [][2]float64{{6378137, 298.257223563}, {6377397.155, 299.1528128}, {6378206.4, 294.9786982}, {6378388, 297}}
 	spheroids = append(spheroids, [2]float64{6377563.396, 299.3249646}, [2]float64{6378160, 298.25})
@@ -466,6 +466,11 @@ func main() {
 		b0 + " +axis=neu",
 		strings.Replace(b0, "+proj=lcc", "+proj=aea", 1),
 		strings.Replace(b0, "+proj=lcc", "+proj=eqdc", 1),
+		// differences of a few 1e-11 (hundreds of thousands of ulps, tenths of a millimetre on the ground)
+		strings.Replace(b0, "+lat_1=33", "+lat_1=33.000000004", 1),
+		strings.Replace(b0, "+lon_0=-96", "+lon_0=-96.000000004", 1),
+		"+proj=tmerc +lat_0=49 +lon_0=-2 +k=0.9996 +x_0=400000 +y_0=-100000 +ellps=bessel",
+		"+proj=tmerc +lat_0=49 +lon_0=-2 +k=0.99960000005 +x_0=400000 +y_0=-100000 +ellps=bessel",
 		"+proj=longlat +ellps=bessel",
 		"+proj=longlat +ellps=bessel +towgs84=577.326,90.129,463.919",
 		"+proj=longlat +ellps=bessel +towgs84=577.326,90.129,463.919,5.137,1.474,5.297,2.4232",
